@@ -167,12 +167,20 @@ func newXMLReader(data []byte) (*xmlReader, error) {
 	return newXMLReaderFromDecoder(xml.NewDecoder(bytes.NewReader(data)))
 }
 
+// Next leaves the current element, with everything it contains, and moves to
+// the next one at the same level.
 func (dec *xmlReader) Next() error {
-	if ty := dec.Type(); ty != Type(0) && ty != TypeStructure {
+	if dec.elem != nil {
 		if err := dec.r.Skip(); err != nil {
 			return err
 		}
 	}
+	return dec.advance()
+}
+
+// advance reads up to the start of the next element, or to the end of the
+// enclosing one.
+func (dec *xmlReader) advance() error {
 	for {
 		tok, err := dec.r.Token()
 		if err != nil {
@@ -345,7 +353,7 @@ func (dec *xmlReader) Struct(tag int, f func(reader) error) error {
 		return err
 	}
 	subDec := xmlReader{dec.r, nil}
-	if err := subDec.Next(); err != nil {
+	if err := subDec.advance(); err != nil {
 		return err
 	}
 	if err := f(&subDec); err != nil {
@@ -356,7 +364,8 @@ func (dec *xmlReader) Struct(tag int, f func(reader) error) error {
 			return err
 		}
 	}
-	return dec.Next()
+	// The sub-reader has consumed the end of this structure.
+	return dec.advance()
 }
 
 func (dec *xmlReader) TextString(tag int) (string, error) {
